@@ -112,6 +112,32 @@ pub fn gen_model(u: &mut U, shape: Shape, max_data: usize) -> (TxModel, String) 
     if dl == 1 {
         data[0] = [0x00, 0x7f, 0x80, 0xff, data[0]][u.below(5)];
     }
+    if u.ratio(1, 8) {
+        // calldata that begins with a selector every tool knows (ERC-20 / ERC-721 / WETH / permit / multicall),
+        // followed by no, short, exact, odd-sized or over-long arguments: code that "understands" such calls
+        // (summaries, decoders, allow-lists) meets them here, complete and truncated
+        const SELECTORS: [[u8; 4]; 12] = [
+            [0xa9, 0x05, 0x9c, 0xbb], [0x09, 0x5e, 0xa7, 0xb3], [0x23, 0xb8, 0x72, 0xdd], [0x70, 0xa0, 0x82, 0x31], [0xd0, 0xe3, 0x0d, 0xb0], [0x2e, 0x1a, 0x7d, 0x4d],
+            [0xd5, 0x05, 0xac, 0xcf], [0x42, 0x84, 0x2e, 0x0e], [0xac, 0x96, 0x50, 0xd8], [0xa2, 0x2c, 0xb4, 0x65], [0x60, 0x80, 0x60, 0x40], [0x00, 0x00, 0x00, 0x00],
+        ];
+        let n = [0usize, 1, 31, 32, 33, 63, 64, 65, 67, 68, 96, 100][u.below(12)].min(max_data.saturating_sub(4).max(0));
+        let mut d = SELECTORS[u.below(SELECTORS.len())].to_vec();
+        if u.ratio(1, 6) {
+            d.truncate(1 + u.below(3));
+        } else {
+            let mut args = u.bytes(n);
+            if u.bool() {
+                // ABI-looking words: left-padded address / small amount
+                for (i, b) in args.iter_mut().enumerate() {
+                    if i % 32 < 12 {
+                        *b = 0;
+                    }
+                }
+            }
+            d.extend(args);
+        }
+        data = d;
+    }
     let kind = match shape {
         Shape::LegacyNoChain | Shape::LegacyChain => Kind::Legacy,
         Shape::Eip2930 => Kind::Eip2930,
